@@ -139,6 +139,23 @@ m("c10-fastpath-assumes-fresh-state", "C10", "net/CFB8/cfb8.go",
 m("c10-second-ring-wrap-broken", "C10", "net/CFB8/cfb8.go",
   "\t\t\tcopy(cf.iv, cf.iv[cf.ivPos+1:])\n", "\t\t\tif cf.iv[len(cf.iv)-1] != 0xA5 {\n\t\t\t\tcopy(cf.iv, cf.iv[cf.ivPos+1:])\n\t\t\t\tcf.iv[len(cf.iv)-1] = 0xA5\n\t\t\t}\n")
 
+# ---------------------------------------------------------------- C16
+m("c16-length-arith", "C16", "net/rcon.go", "int32(4 + 4 + len(Payload) + 2), // Length", "int32(4 + 4 + len(Payload) + 1), // Length")
+m("c16-payload-slice", "C16", "net/rcon.go", "Payload = string(buf[8 : Length-2])", "Payload = string(buf[8 : Length-1])")
+m("c16-min-bound", "C16", "net/rcon.go", "if Length < 4+4+0+2 {", "if Length < 4+4+0+1 {")
+m("c16-max-bound", "C16", "net/rcon.go", "if Length > MaxRCONPackageSize {", "if Length >= MaxRCONPackageSize {")
+m("c16-max-bound-loose", "C16", "net/rcon.go", "if Length > MaxRCONPackageSize {", "if Length > MaxRCONPackageSize+1 {")
+m("c16-big-endian-type", "C16", "net/rcon.go", "Type = int32(binary.LittleEndian.Uint32(buf[4:8]))", "Type = int32(binary.BigEndian.Uint32(buf[4:8]))")
+m("c16-login-id-inverted", "C16", "net/rcon.go", "\tif r == c.ReqID {\n\t\terr = nil\n\t} else if r == -1 {", "\tif r != -1 {\n\t\terr = nil\n\t} else if r == -1 {")
+m("c16-acceptlogin-echo-on-wrong", "C16", "net/rcon.go", "\t\terr = r.WritePacket(-1, 2, \"\")", "\t\terr = r.WritePacket(R, 2, \"\")")
+m("c16-acceptlogin-prefix", "C16", "net/rcon.go", "\tif P != password {", "\tif !strings.HasPrefix(password, P) {")
+m("c16-acceptlogin-casefold", "C16", "net/rcon.go", "\tif P != password {", "\tif !strings.EqualFold(P, password) {")
+m("c16-resp-no-id-check", "C16", "net/rcon.go", "\tif ReqID != r.ReqID {", "\tif ReqID != r.ReqID && ReqID == -1 {")
+m("c16-resp-no-type-check", "C16", "net/rcon.go", "\t} else if Type != 0 {", "\t} else if Type != 0 && Type != 2 {")
+m("c16-acceptcmd-trims", "C16", "net/rcon.go", "\treturn P, nil\n}\n\nfunc (r *RCONConn) RespCmd", "\treturn strings.TrimRight(P, \"\\x00\"), nil\n}\n\nfunc (r *RCONConn) RespCmd")
+m("c16-acceptlogin-silent-reject", "C16", "net/rcon.go", "\t\treturn errors.New(\"password wrong\")", "\t\treturn nil")
+m("c16-respcmd-stale-id", "C16", "net/rcon.go", "\tr.ReqID = R\n\n\t// Check packet type\n\tif T != 2 {", "\tif r.ReqID == 0 {\n\t\tr.ReqID = R\n\t}\n\n\t// Check packet type\n\tif T != 2 {")
+
 
 def sh(cmd, cwd=None, timeout=3600, env=ENV):
     p = subprocess.run(cmd, shell=True, cwd=cwd, env=env, stdout=subprocess.PIPE, stderr=subprocess.STDOUT, text=True, timeout=timeout)
@@ -177,8 +194,9 @@ def main():
             print(f"{name}: pattern occurs {src.count(old)} times, skipped"); results.append((name, prop, "PATTERN")); continue
         try:
             mutated = src.replace(old, new)
-            if "bufio." in new and '"bufio"' not in mutated:
-                mutated = mutated.replace('import (\n', 'import (\n\t"bufio"\n', 1)
+            for pkg in ("bufio", "strings"):
+                if pkg + "." in new and '"%s"' % pkg not in mutated:
+                    mutated = mutated.replace('import (\n', 'import (\n\t"%s"\n' % pkg, 1)
             open(path, "w").write(mutated)
             rc, out = sh("go build ./... && go test -vet=off -count=1 ./... 2>&1 | tail -40", cwd=REPO)
             if rc != 0 or "FAIL" in out:
